@@ -30,6 +30,10 @@ def decl_specs(tier):
             specs.append({'names': [c], 'wrapper': 'a', 'opts': opts})
             specs.append({'names': ['i1', c], 'wrapper': 'b', 'opts': opts})
     specs.append({'embed': True, 'names': []})
+    for proto in PROTOS:
+        for place in PLACEMENTS:
+            for opts in ({}, {'generate_for_pack': False, 'generate_for_unpack': False}):
+                specs.append({'special': 'check_protos', 'proto': proto, 'place': place, 'opts': opts, 'names': []})
     for c in ('i1', 'i3', 'dn', 'm0', 'b35', 'sn', 'su', 'sr', 'o1', 'r1', 'rs', 'sdn'):
         specs.append({'names': [c], 'wrapper': 'd'})
     return specs
@@ -112,6 +116,91 @@ def check_embed(st):
         if got != (7, 2, 0):
             st.violate('embed-defaults', 'Point3D(x=7) holds (x, y, z) = %r, the prototype Point(x=1, y=2) says (7, 2, 0)' % (got,),
                        {'spec': {'embed': True, 'names': []}}, mk.HEADER + EMBED_SRC + 'p = Point3D(x=7); print(p.x, p.y, p.z)')
+
+
+PROTO_BASE = (mk.class_src('Chunk', ["length = Int(1).describe(AutoLength('payload'))", 'payload = Data(length)']) + '\n' +
+              mk.class_src('Flags', ['on = Int(1, default=1)', 'lvl = Int(2, signed=True)']) + '\n' +
+              mk.class_src('Mid', ['h = Int(1)', 'c = Ref(Chunk)', 'f = Ref(Flags)']) + '\n')
+# prototype expressions: several compare EQUAL to a plain instance of their class without being the same state
+PROTOS = ['Chunk()', 'Chunk(length=0)', "Chunk(payload=b'')", "Chunk(length=0, payload=b'')", "Chunk(length=2, payload=b'ab')", "Chunk(payload=b'ab')",
+          'Chunk(length=5)', 'Flags()', 'Flags(on=True)', 'Flags(on=1)', 'Flags(lvl=False)', 'Flags(on=0, lvl=-1)',
+          'Mid()', 'Mid(c=Chunk(length=0))', 'Mid(f=Flags(on=True))', "Mid(h=1, c=Chunk(length=2, payload=b'ab'))"]
+PLACEMENTS = {
+    'ref': (['pre = Int(1)', 's = Ref(%s)'], 'p.s', lambda plain, enc: b'\x00' + enc),
+    'ref-last-of-two': (['s0 = Ref(%s)', 's = Ref(%s)'], 'p.s', lambda plain, enc: plain + enc),
+    'list-default': (['n = Int(1)', 's = Ref(%s).repeated(n, default=[%s])'], 'p.s[0]', lambda plain, enc: b'\x00' + enc),
+    'optional-default': (['t = Int(1)', 's = Ref(%s).when(t, default=%s)'], 'p.s', lambda plain, enc: b'\x00' + enc),
+}
+FOLLOW = {
+    'Chunk': ['', "t.payload = b'abc'", 'del t.length', 't.length = 1', "t.payload = b'abc'; del t.length"],
+    'Flags': ['', 't.lvl = 3'],
+    'Mid': ['', "t.c.payload = b'abc'", 'del t.c.length', 't.f.lvl = 3'],
+}
+
+
+def observe_proto(t):
+    """every leaf value with its type, and the encoding"""
+    from bisturi.packet import Packet
+    out = []
+
+    def walk(v, where):
+        for name, f, _, _ in v.get_fields():
+            if getattr(f, 'holds_no_value', False):
+                continue
+            name = name[len('_described_'):] if name.startswith('_described_') else name
+            x = getattr(v, name)
+            if isinstance(x, Packet):
+                walk(x, where + name + '.')
+            else:
+                out.append((where + name, type(x).__name__, x))
+    walk(t, '')
+    try:
+        enc = t.pack()
+    except Exception as e:
+        enc = ('raised', type(e).__name__)
+    return out, enc
+
+
+def check_protos(st, spec):
+    """differential: the packet found in a default-constructed outer packet is a COPY of the declared prototype - it holds the
+    same values (same types) and keeps behaving like the prototype expression evaluated afresh under follow-up assignments"""
+    proto, place, opts = spec['proto'], spec['place'], spec.get('opts') or {}
+    lines, access, wrap = PLACEMENTS[place]
+    src = PROTO_BASE
+    if opts:
+        src = src.replace('(Packet):\n', '(Packet):\n    __bisturi__ = %r\n' % (opts,))
+    src += mk.class_src('W', [l.replace('%s', proto) for l in lines], opts or None)
+    cls = proto.split('(')[0]
+    with mk.World() as w:
+        try:
+            m = w.module(src)
+        except Exception as e:
+            st.violate('definition-fails', 'defining %s raised %r' % (src.replace('\n', '; '), e), {'spec': spec})
+            return
+        st.inc('programs')
+        for follow in FOLLOW[cls]:
+            st.inc('evaluations')
+            ns = dict(m.__dict__)
+            try:
+                exec('p = W()\nt = %s\n%s' % (access, follow), ns)
+                got = observe_proto(ns['t'])
+                whole = ns['p'].pack()
+            except Exception as e:
+                got, whole = ('raised', repr(e)), None
+            ns2 = dict(m.__dict__)
+            exec('t = %s\n%s' % (proto, follow), ns2)
+            exp = observe_proto(ns2['t'])
+            ns3 = dict(m.__dict__)
+            exec('t = %s' % proto, ns3)
+            expwhole = wrap(ns3['t'].pack(), exp[1]) if isinstance(exp[1], bytes) else None
+            st.add('states', (proto, place, follow, repr(opts)))
+            st.add('outcomes', (repr(exp[0])[:80],))
+            if got != exp or (expwhole is not None and whole != expwhole):
+                st.violate('default is not a copy of the prototype: %s' % cls,
+                           'W().%s after %r observes %r / W().pack() = %r; the prototype %s treated the same way observes %r (W: %r) | %s' % (
+                               access[2:], follow, got, whole, proto, exp, expwhole, src.replace('\n', '; ')),
+                           {'spec': spec}, mk.HEADER + src + 'p = W()\nt = %s\n%s\nprint(t, p.pack())' % (access, follow))
+                return
 
 
 def check_decl(dc, st, tier, only=None):
@@ -199,12 +288,17 @@ def run(tier):
     cov = ea.coverage(st, 'every declaration of the alphabet, module-level and function-local (pickle vs deepcopy prototypes), user defaults on every kind; '
                           'K() twice (values + no shared mutable object), K(**kw) for every subset of top-level fields with two value sets taken from the '
                           'reference parses; values vs reference defaults, pack vs reference encoding; one embed=True declaration (documented upstream quirk); '
+                          + '%d prototype expressions x %d placements: the default is a copy that behaves like the prototype under follow-up assignments; ' % (len(PROTOS), len(PLACEMENTS)) +
                           'states = distinct (declaration, placement, overridden subset)')
     return {'stats': st, 'coverage': cov, 'assumptions': ['reference defaults in mc/refsem.py']}
 
 
 def replay(case):
     from mc.common import Stats
+    if case['spec'].get('special'):
+        st = Stats()
+        check_protos(st, case['spec'])
+        return st.violations
     if case['spec'].get('embed'):
         st = Stats()
         check_embed(st)
